@@ -122,9 +122,17 @@ func (c *FmtCodec) Do(op Op) {
 	case OpHeading:
 		c.startLine()
 		c.write(strings.Repeat("#", op.Number) + " ")
+		contentStart := c.sb.Len()
 		c.writeSegmentsATXHeading(c.buildSegments(op.Content))
 		if op.Info != "" {
 			c.write(" {" + op.Info + "}")
+		} else if s := c.sb.String(); atxHeadingAttributeRegexp.MatchString(" " + s[contentStart:]) {
+			// The content ends in something that looks like the attribute
+			// extension, like "# \{#id}". Write the final "}" as a character
+			// reference so that it stays part of the content. Only text can
+			// put a "}" at the end of the line.
+			c.sb.Reset()
+			c.sb.WriteString(s[:len(s)-1] + "&#125;")
 		}
 		c.finishLine()
 	case OpCodeBlock:
